@@ -94,6 +94,44 @@ XfIndex(c) == IF c.s < 0 THEN 0 ELSE c.s                    \* s defaults to 0 (
 ValidStyle(c, xfs) == XfIndex(c) < Len(xfs)
 DecodeFmt(c, xfs) == xfs[XfIndex(c) + 1]
 
+(* ---- positions (18.3.1.73 row: r optional; 18.3.1.4 c: r optional) ------------------- *)
+(* A <row> without r= is the row after the previous <row> element (row 1 if it is the first), whether or not that one
+   had cells; a <c> without r= is in the column after the previous <c> of its row (column 1 if it is the first),
+   whether or not that one had content (a self-closing <c s=".."/> counts like any other).
+   ra = the r= attribute of a row, 0 if absent. *)
+NextRowNum(prev, ra) == IF ra > 0 THEN ra ELSE prev + 1
+RECURSIVE RowAfter(_, _)           \* the row number after a sequence of <row> elements (their r= attributes)
+RowAfter(prev, ras) == IF ras = <<>> THEN prev ELSE RowAfter(NextRowNum(prev, Head(ras)), Tail(ras))
+(* p = [row, col]: row number of the current <row> element and column of its last <c> (0 = none yet).
+   c carries nr (no r=), rf (first <c> of its <row>), rra (r= of that row), rpre (r= of the cell-less rows before it),
+   and r / c = the position its r= attribute names (where it has one). *)
+RowOf(p, c) == IF c.rf THEN RowAfter(p.row, Append(c.rpre, c.rra)) ELSE p.row
+ColBefore(p, c) == IF c.rf THEN 0 ELSE p.col
+CellPosition(p, c) == IF c.nr THEN [row |-> RowOf(p, c), col |-> ColBefore(p, c) + 1] ELSE [row |-> c.r, col |-> c.c]
+(* the state after the cell: the row element's number, the cell's column *)
+PosAfter(p, c) == [row |-> RowOf(p, c), col |-> CellPosition(p, c).col]
+Pos0 == [row |-> 0, col |-> 0]
+
+(* ---- ST_Xstring (22.9.2.19) ---------------------------------------------------------- *)
+(* _xHHHH_ (four hexadecimal digits of either case) stands for the UTF-16 code unit HHHH; texts are sequences of UTF-16
+   code units.  Scanning is left to right and an escape is consumed whole: _x005F_x0041_ is "_x0041_", and
+   _x0041__x0042_ is "AB".  Anything that is not a complete escape stands for itself.  Two escapes may spell a surrogate
+   pair (one character outside the BMP); a lone surrogate is no character: such a text has no decoding here. *)
+HexVal(u) == IF u >= 48 /\ u <= 57 THEN u - 48 ELSE IF u >= 65 /\ u <= 70 THEN u - 55 ELSE IF u >= 97 /\ u <= 102 THEN u - 87 ELSE -1
+IsEscape(s, i) == /\ i + 6 <= Len(s) /\ s[i] = 95 /\ s[i + 1] = 120 /\ s[i + 6] = 95
+                  /\ \A k \in 2..5 : HexVal(s[i + k]) >= 0
+EscapeUnit(s, i) == 4096 * HexVal(s[i + 2]) + 256 * HexVal(s[i + 3]) + 16 * HexVal(s[i + 4]) + HexVal(s[i + 5])
+RECURSIVE XDecodeFrom(_, _)
+XDecodeFrom(s, i) == IF i > Len(s) THEN <<>>
+                     ELSE IF IsEscape(s, i) THEN <<EscapeUnit(s, i)>> \o XDecodeFrom(s, i + 7)
+                     ELSE <<s[i]>> \o XDecodeFrom(s, i + 1)
+XDecode(s) == XDecodeFrom(s, 1)
+IsHigh(u) == u >= 55296 /\ u <= 56319
+IsLow(u)  == u >= 56320 /\ u <= 57343
+WellFormed16(s) == \A i \in DOMAIN s :
+                     /\ IsHigh(s[i]) => (i < Len(s) /\ IsLow(s[i + 1]))
+                     /\ IsLow(s[i]) => (i > 1 /\ IsHigh(s[i - 1]))
+
 (* ---- hyperlinks (18.3.1.47 hyperlink) ------------------------------------------------ *)
 (* raw link [ext, val, hasloc, loc, tip]: ext = the element carries r:id and val is the Target of that relationship;
    hasloc / loc = the location attribute; tip = the tooltip attribute ("" if absent).
@@ -146,6 +184,17 @@ Occupied(f, r, c) == \E x \in f.cells : x.r = r /\ x.c = c
 PostSetOpt(f, name, val)   == [f EXCEPT !.opts = [@ EXCEPT ![name] = val]]
 PostAddSst(f, item)        == [f EXCEPT !.sst = Append(@, item)]
 PostAddCell(f, variant, r, c) == [f EXCEPT !.cells = @ \cup {Place(variant, r, c)}]
+(* the same with the optional position attributes left out: nr = the cell is written without r=, rnr = its <row> is *)
+PostAddCellOpt(f, variant, r, c, nr, rnr) ==
+  [f EXCEPT !.cells = @ \cup {[Place(variant, r, c) EXCEPT !.nr = nr]}, !.rownr = IF rnr THEN @ \cup {r} ELSE @]
+RowCells(f, r) == {x \in f.cells : x.r = r}
+LastRowOf(f) == IF f.cells = {} THEN 0 ELSE CHOOSE r \in {x.r : x \in f.cells} : \A x \in f.cells : x.r <= r
+LastColOf(f, r) == IF RowCells(f, r) = {} THEN 0 ELSE CHOOSE c \in {x.c : x \in RowCells(f, r)} : \A x \in RowCells(f, r) : x.c <= c
+(* in-contract: the attribute may be left out only where document order implies the same position (cells are added in
+   document order) *)
+CanOmitCellR(f, r, c) == r >= LastRowOf(f) /\ c = LastColOf(f, r) + 1
+CanOmitRowR(f, r) == RowCells(f, r) = {} /\ r = LastRowOf(f) + 1
+AfterAll(f, r, c) == r > LastRowOf(f) \/ (r = LastRowOf(f) /\ c > LastColOf(f, r))
 (* a shared-formula block: the master at (ar, ac) with formula toks and group index si, children at the offsets
    (each <<dr, dc>> later in document order), every cell with the cached value of `variant` *)
 MasterF(toks, si, ref) == [k |-> "shared", si |-> si, ht |-> TRUE, text |-> Render(toks), toks |-> toks, ref |-> ref]
@@ -160,6 +209,17 @@ LaterInDocOrder(o) == o[1] > 0 \/ (o[1] = 0 /\ o[2] > 0)
 CanAddBlock(f, ar, ac, toks, offs) ==
   /\ ~Occupied(f, ar, ac) /\ \A o \in offs : LaterInDocOrder(o) /\ ac + o[2] >= 1 /\ ~Occupied(f, ar + o[1], ac + o[2])
   /\ \A o \in offs : HasRefErr(TranslateF(toks, o[2], o[1])) => HasRefErr(toks)
+
+(* what the position rule derives from the attributes as written, cell by cell in document order *)
+RawPos(f, cs, i) == [cs[i] EXCEPT !.rf = (i = 1 \/ cs[i - 1].r # cs[i].r),
+                                  !.rra = IF cs[i].r \in f.rownr \/ ~f.opts.rowr THEN 0 ELSE cs[i].r, !.rpre = <<>>,
+                                  !.nr = cs[i].nr \/ ~f.opts.rowr]
+RECURSIVE DerivedFrom(_, _, _, _)
+DerivedFrom(f, cs, i, p) == IF i > Len(cs) THEN <<>>
+                            ELSE <<CellPosition(p, RawPos(f, cs, i))>> \o DerivedFrom(f, cs, i + 1, PosAfter(p, RawPos(f, cs, i)))
+(* leaving the optional attributes out never moves a cell *)
+PositionsImplied == LET cs == DocOrder(file)  d == DerivedFrom(file, cs, 1, Pos0) IN
+                    \A i \in DOMAIN cs : d[i].row = cs[i].r /\ d[i].col = cs[i].c
 
 (* ---- properties of the oracle (checked on every reachable file) ----------------- *)
 Decoded(f) == DecodeSeq(DocOrder(f), f.sst, f.xfs, NoMasters)
